@@ -23,7 +23,42 @@ def main():
         hc = httpx.AsyncClient(transport=httpx.MockTransport(handler))
     else:
         hc = httpx.Client(transport=httpx.MockTransport(handler))
-    client = getattr(pkg, P.get("client_name") or "Client")(url="http://x", http_client=hc)
+    ckw = {"ws_url": "ws://x"} if (is_async and P.get("subscriptions")) else {}
+    client = getattr(pkg, P.get("client_name") or "Client")(url="http://x", http_client=hc, **ckw)
+
+    class _WS:                       # scripted graphql-transport-ws peer for subscription methods
+        def __init__(self):
+            self.q = [json.dumps({"type": "connection_ack"})]
+
+        async def send(self, msg):
+            d = json.loads(msg)
+            if d.get("type") == "subscribe":
+                last["body"] = d.get("payload")
+                self.q.append(json.dumps({"type": "complete", "id": d.get("id")}))
+
+        async def recv(self):
+            return self.q.pop(0)
+
+        def __aiter__(self):
+            return self
+
+        async def __anext__(self):
+            if not self.q:
+                raise StopAsyncIteration
+            return self.q.pop(0)
+
+        async def close(self, *a, **k):
+            self.q = []
+
+    class _Conn:
+        def __init__(self, *a, **k):
+            self.ws = _WS()
+
+        async def __aenter__(self):
+            return self.ws
+
+        async def __aexit__(self, *a):
+            return False
     methods = {m.replace("_", "").lower(): m for m in dir(client) if not m.startswith("_")}
     out = {}
     for name in P["ops"]:
@@ -36,9 +71,18 @@ def main():
                 if pn != "kwargs" and p.default is inspect.Parameter.empty:
                     kwargs[pn] = (P.get("args") or {}).get(pn, True)
             try:
-                r = meth(**kwargs)
-                if is_async:
-                    loop.run_until_complete(r)
+                if inspect.isasyncgenfunction(meth):
+                    import sys as _sys
+                    _sys.modules[type(client).__mro__[1].__module__].ws_connect = _Conn
+
+                    async def consume():
+                        async for _ in meth(**kwargs):
+                            pass
+                    loop.run_until_complete(consume())
+                else:
+                    r = meth(**kwargs)
+                    if is_async:
+                        loop.run_until_complete(r)
             except Exception as ex:  # noqa
                 rec["call_exc"] = type(ex).__name__
             rec["body"] = last.get("body")
